@@ -36,10 +36,36 @@ def lean_list(items):
     return "[" + ", ".join(f'("{n}", {v})' for n, v in items) + "]"
 
 
+TRACK_INIT_SOURCES = [
+    "src/celeritas/track/InitializeTracksAction.cc",
+    "src/celeritas/track/ExtendFromPrimariesAction.cc",
+    "src/celeritas/track/ExtendFromSecondariesAction.cc",
+    "src/celeritas/track/detail/InitTracksExecutor.hh",
+    "src/celeritas/track/detail/LocateAliveExecutor.hh",
+    "src/celeritas/track/detail/ProcessSecondariesExecutor.hh",
+    "src/celeritas/track/detail/ProcessPrimariesExecutor.hh",
+    "src/celeritas/track/detail/TrackInitAlgorithms.cc",
+    "src/celeritas/track/detail/TrackInitAlgorithms.hh",
+    "src/celeritas/track/detail/Utils.hh",
+]
+
+
+def order_mentions():
+    """(sorted enumerators of TrackOrder compared anywhere in the track-initialisation sources,
+    number of occurrences of the thread->slot map `track_slots` there)"""
+    names, slots = set(), 0
+    for f in TRACK_INIT_SOURCES:
+        src = strip_comments(read(f))
+        names |= set(re.findall(r"TrackOrder::([A-Za-z_0-9]+)", src))
+        slots += len(re.findall(r"\btrack_slots\b", src))
+    return sorted(names), slots
+
+
 def gen_trackinit():
     src = strip_comments(read("src/celeritas/Types.hh"))
     status = parse_enum(src, "TrackStatus")
     order = parse_enum(src, "TrackOrder")
+    mentions, nslots = order_mentions()
     text = HEADER + f"""
 namespace CelerVerif.Generated.TrackInit
 
@@ -50,6 +76,14 @@ def trackStatus : List (String × Nat) := {lean_list(status)}
 /-- enumerators of `enum class TrackOrder` (celeritas/Types.hh) with their values, in
     declaration order -/
 def trackOrder : List (String × Nat) := {lean_list(order)}
+
+/-- every `TrackOrder::<x>` that occurs in the track-initialisation sources
+    (InitializeTracksAction.cc, ExtendFrom*Action.cc, detail/*Executor.hh,
+    detail/TrackInitAlgorithms.*, detail/Utils.hh) -/
+def trackOrderMentions : List String := [{", ".join('"%s"' % n for n in mentions)}]
+
+/-- occurrences of the thread->slot indirection `track_slots` in those sources -/
+def trackSlotsMentions : Nat := {nslots}
 
 end CelerVerif.Generated.TrackInit
 """
